@@ -181,7 +181,7 @@ def execute(ctx, runs, tag, watchdog_s, jobs=8, timeout_s=180):
     inp = ctx.write_ndjson("pipeh_%s.in" % tag, lines)
     outp = os.path.join(ctx.scratch, "pipeh_%s.out" % tag)
     ctx.harness(["pipeh", "-j", str(jobs), "-timeout", "%ds" % timeout_s], input_path=inp, output_path=outp,
-                timeout=max(1800, 4 * timeout_s + 600))
+                timeout=10800)
     res = {}
     for o in ctx.read_ndjson(outp):
         if isinstance(o.get("i"), (int, float)):
@@ -381,7 +381,7 @@ def run(ctx):
     th.start()
     try:
         cases = gen_cases(ctx)
-        budget = 110 if quick else 1000
+        budget = 110 if quick else 600
         runs, nclasses = select(ctx, cases, budget, (lambda c: 1 if ctx.rng.random() < 0.4 else 0) if quick else (lambda c: 2))
         probes = probe_runs(cases)
         if quick:
